@@ -383,6 +383,10 @@ static inline void ABTI_mem_free_thread(ABTI_global *p_global,
                                         ABTI_local *p_local,
                                         ABTI_thread *p_thread)
 {
+#ifdef PMODELS_ARGOBOTS_VERIF
+    if (p_thread->type & ABTI_THREAD_TYPE_YIELDABLE)
+        ABTD_VERIF_CTX_FINI(&((ABTI_ythread *)p_thread)->ctx);
+#endif
     /* Return stack. */
 #ifdef ABT_CONFIG_USE_MEM_POOL
     if (p_thread->type & ABTI_THREAD_TYPE_MEM_MEMPOOL_DESC_STACK) {
